@@ -60,12 +60,17 @@ Theorem C06_follows_spec :
 Proof. exact follows_spec. Qed.
 
 (* The same from the first byte on, for the whole byte stream of a connection
-   arriving in one read: initial NUL, \r\n framing, the limit on an unfinished
-   line (Spec/AuthSpec.v spec_stream).  Independence of how the stream is cut
-   into reads is not proved here (the harness runs every case under several
-   cuttings; the general framing theorem is C04's); one cutting-dependent case
-   is known and modelled: a line of exactly 16384 bytes whose \r and \n arrive
-   in different reads closes the connection. *)
+   arriving in one read: initial NUL, \r\n framing, and the rule for the line
+   still being received at the end (Spec/AuthSpec.v spec_stream: more than
+   16384 + 1 bytes without \r\n can no longer become an acceptable line and
+   disconnect; exactly 16385 may still be a maximal line and the \r of its
+   delimiter).  That the result does not depend on how the stream is cut into
+   reads is C04's theorem for this line layer (Props/C04.v
+   C04_partition_independent, for any authenticator step function and any
+   limit); here the harness runs every case under several cuttings, including a
+   16384-byte line cut between its \r and \n and a 16385-byte remainder, which
+   behaved differently before repair D32 (legacy flag fx32 = false: the bound on
+   the remainder was 16384). *)
 Theorem C06_follows_spec_stream :
   forall (mechs : list bytes) (guid : bytes) (script : list verdict) (stream : bytes),
     stream <> [] -> Forall well_typed script ->
@@ -76,9 +81,13 @@ Proof. exact follows_spec_stream. Qed.
 
 (* ----- closing ---------------------------------------------------------------
    For every implementation of the mechanisms: BEGIN out of turn, a first byte
-   other than NUL, a line (finished or not) longer than MAX_AUTH_LENGTH close the
-   connection and do nothing else; a closed connection ignores lines and reads;
-   Close is the last thing a connection does. *)
+   other than NUL, a finished line longer than MAX_AUTH_LENGTH close the
+   connection and do nothing else; so does a read that leaves an unfinished line
+   of more than [buf_limit F] bytes, while one within that bound is kept and
+   nothing happens ([buf_limit] is MAX_AUTH_LENGTH + 1 on the current tree - the
+   remainder may end with the \r of a line of the maximum length - and
+   MAX_AUTH_LENGTH before repair D32: C06_buf_limit); a closed connection ignores
+   lines and reads; Close is the last thing a connection does. *)
 Theorem C06_closes :
   forall (M : Type) (F : fixes) (I : mech_if M) (mechs : list bytes) (guid : bytes),
     (forall c l, c_mode c = Live -> a_state (c_auth c) <> WaitingForBegin ->
@@ -90,9 +99,13 @@ Theorem C06_closes :
     (forall c l, c_mode c = Live -> MAX_AUTH < N.of_nat (length l) ->
                  feed F I mechs guid c l = (with_mode c Closed (c_auth c), [OClose])) /\
     (forall c d x, c_mode c = Live -> c_first c = false -> split_crlf (c_buf c ++ d) = [x] ->
-                 MAX_AUTH < N.of_nat (length x) ->
-                 snd (recv F I mechs guid c d) = [OClose] /\
-                 c_mode (fst (recv F I mechs guid c d)) = Closed) /\
+                 (buf_limit F < N.of_nat (length x) ->
+                    snd (recv F I mechs guid c d) = [OClose] /\
+                    c_mode (fst (recv F I mechs guid c d)) = Closed) /\
+                 (N.of_nat (length x) <= buf_limit F ->
+                    snd (recv F I mechs guid c d) = [] /\
+                    c_mode (fst (recv F I mechs guid c d)) = Live /\
+                    c_buf (fst (recv F I mechs guid c d)) = x)) /\
     (forall c, c_mode c <> Live ->
                  (forall l, feed F I mechs guid c l = (c, [])) /\
                  (forall d, recv F I mechs guid c d = (c, []))) /\
@@ -102,10 +115,16 @@ Proof.
   split; [exact (begin_out_of_turn F I mechs guid)|].
   split; [exact (first_byte_not_nul F I mechs guid)|].
   split; [exact (long_line F I mechs guid)|].
-  split; [exact (long_unfinished_line F I mechs guid)|].
+  split; [intros c d x Hl Hf Hs; split;
+            [apply (long_unfinished_line F I mechs guid)|apply (short_unfinished_line F I mechs guid)];
+            assumption|].
   split; [intros c Hc; split; intros x; [apply feed_closed|apply recv_closed]; exact Hc|].
   exact (close_is_last F I mechs guid).
 Qed.
+
+Theorem C06_buf_limit :
+  forall F, buf_limit F = if fx32 F then 16385 else 16384.
+Proof. intros F. unfold buf_limit. destruct (fx32 F); reflexivity. Qed.
 
 (* "after more than five rejections": a connection never writes more than five
    REJECTED lines; the counter follows them exactly; once it stands at five, no
